@@ -155,9 +155,6 @@ impl Prop for C05 {
             Outcome::Ok { generated, warnings } if warnings.is_empty() => generated.clone(),
             Outcome::Panic { message, location } => return CaseResult { discs: vec![Disc::new(format!("panic|{location}"), format!("{message}\n{src}"))], nontrivial: false, outcome: "panic".into(), skipped: None },
             other => {
-                if c.kind == "CHOICE" && c.adds.iter().any(|a| *a > 0) {
-                    return CaseResult::skip("choice-group-unsupported");
-                }
                 return CaseResult { discs: vec![Disc::new(format!("ext|rejected|kind={}|r={}|marker={}|groups={}|versions={}|{}", c.kind, c.root.min(1), c.marker, c.adds.iter().any(|a| *a > 0), c.versions, other.class()), format!("extensible type not compiled cleanly: {}\n{src}", other.brief()))], nontrivial: false, outcome: other.class().into(), skipped: None };
             }
         };
